@@ -18,6 +18,7 @@ RULE = ("product of payload length x API (download/force_segment/open wb with si
         "for n<=9, all 1- and 2-cut splits above) x predecessor transfer on the same client (none, expedited, "
         "odd-segment-count segmented, unknown-size stream); uploads: length x server style {expedited with/without "
         "size, segmented with/without size} x segment plan {full, short non-final segments} x read API/buffering/read "
+        "sizes (uniform, and a small read followed by read-everything on raw / 2 / 3 / 7-byte buffered streams) "
         "size x dictionary entry {absent, fixed-size number of width 1/2/4/8, string}. One state = one (case, protocol "
         "step) of the client/server product; non-trivial = transfers with at least one segment frame or a predecessor")
 ASSUMPTIONS = [
@@ -81,7 +82,8 @@ def cases(tier, seed):
                 for od in ["absent", "str"] + list(OD_WIDTHS):
                     if od in OD_WIDTHS and n < OD_WIDTHS[od]:
                         continue
-                    for mode in ("upload", "raw", "b7:all", "b7:1", "b7:3", "b7:7", "b7:8", "b1024:all", "b1024:3", "text"):
+                    for mode in ("upload", "raw", "b7:all", "b7:1", "b7:3", "b7:7", "b7:8", "b1024:all", "b1024:3", "text",
+                                 "b3:1+all", "b3:2+all", "b2:1+all", "b7:3+all", "b0:3+all", "b0:6+all"):
                         if od != "absent" and mode not in ("upload", "b7:3"):
                             continue
                         k += 1
@@ -320,6 +322,16 @@ def do_upload(node, case):
         with node.sdo.open(idx, sub, "rt", buffering=1024) as fp:
             return fp.read().encode("ascii")
     b, r = mode.split(":")
+    if r.endswith("+all"):
+        # a history of reads on one stream: a small read first, then "everything that is left"
+        k = int(r[:-4])
+        with node.sdo.open(idx, sub, "rb", buffering=int(b[1:])) as fp:
+            if int(b[1:]) == 0:
+                buf = bytearray(k)
+                got = bytes(buf[:fp.readinto(buf) or 0])
+            else:
+                got = fp.read(k)
+            return got + fp.read()
     with node.sdo.open(idx, sub, "rb", buffering=int(b[1:])) as fp:
         if r == "all":
             return fp.read()
